@@ -164,7 +164,8 @@ def format_code(
     keep_imports: bool = False,
     max_line_length: int = core.parse_line_length_from_pyproject_toml(),
 ) -> str:
-    if re.findall(r"# pyrefact: skip_file", source):
+    # The same spellings as core.has_ignore_comment accepts
+    if re.search(r"#\s*pyrefact\s*:\s*skip_file", source):
         return source
 
     source = formatting.outside_strings(lambda text: text.expandtabs(4), source)
